@@ -2,6 +2,7 @@ import Replicon.Proofs.Events
 import Replicon.Proofs.Client
 import Replicon.Proofs.Server
 import Replicon.Proofs.Joint
+import Replicon.Proofs.Jump
 /-
 C04 — Server events never outrun the replication they depend on.
 
@@ -212,6 +213,30 @@ example :
     let r2 := receive 3 r1.2 []
     let r3 := receive 4 r2.2 [(4, 11)]
     r1.1 = [] ∧ r2.1 = [] ∧ r3.1 = [(4, 9), (4, 10), (4, 11)] ∧ r3.2.items = [] := by
+  decide
+
+open Replicon.Joint in
+/-- `C04_history` for histories in which the tick also advances by more than one at once
+(`Joint.OpJ`, `Proofs/Jump.lean`: `ServerTick::increment_by` under the manual tick policy): every
+frame's dependent events are stamped with the tick of the last update message sent to the
+receiving client in its session, in a state where those ticks strictly increase and never exceed
+the server tick. -/
+theorem C04_history_with_tick_jumps (ops : List Joint.OpJ) :
+    Joint.Inv (Joint.runJ {} ops).1 ∧
+    ∀ fr ∈ (Joint.runJ {} ops).2, ∃ st', Joint.Inv st' ∧ Joint.StampsOk st' fr.2 :=
+  Joint.inv_runJ ops {} Joint.inv_init
+
+/-- Non-vacuity: after a jump of 127 ticks the next update message carries tick 129, and so does
+the stamp of the event emitted with it. -/
+example :
+    let ops : List Joint.OpJ :=
+      [.op .start, .op (.connect 0 true), .op (.spawn 5 true [(0, 7)]),
+       .op (.emit { ev := { id := 100, chan := 2, mode := .broadcast }, independent := false }),
+       .op (.frame true 10 (fun _ => [])), .jump 127, .op (.spawn 6 true [(0, 1)]),
+       .op (.emit { ev := { id := 101, chan := 2, mode := .broadcast }, independent := false }),
+       .op (.frame true 10 (fun _ => []))]
+    ((Joint.runJ { srv := { rates := [(0, .every)] } } ops).2.map fun fr => fr.2.map fun o => (o.client, o.id, o.stamp)) =
+      [[], [], [], [], [(0, 100, some 1)], [], [], [], [(0, 101, some 129)]] := by
   decide
 
 end Replicon.C04
